@@ -459,6 +459,9 @@ http_sconn_rxdone(void *arg)
 	// 1.x.  We flatly refuse to deal with HTTP 0.9, and we can't
 	// cope with HTTP/2.
 	if (nng_http_get_status(sc->conn) >= NNG_HTTP_STATUS_BAD_REQUEST) {
+		// The request could not be parsed, so we do not know whether a
+		// body follows it: do not take what comes next for a request.
+		sc->close = true;
 		http_sconn_error(sc, nng_http_get_status(sc->conn));
 		return;
 	}
